@@ -67,7 +67,7 @@ def required(tier):
     return {"set:hdr_transitions": 300, "set:payload_transitions": 500, "frag.messages": 1500, "frag.multi_message_streams": 150,
             "flip.decided": 1500, "flip.field.magic": 150, "flip.field.command": 500, "flip.field.length": 150, "flip.field.checksum": 150,
             "flip.field.payload": 100, "flip.expected_accept": 100, "flip.fragmented": 2000, "eof.offsets": 200, "magic.decided": 6, "cmd.decided": 150,
-            "codec.version": 30, "codec.version.relay_false": 5, "codec.version.height_top_bit": 5, "codec.getheaders": 7, "codec.inv": 6, "codec.addr": 6, "codec.ping": 5}
+            "codec.version": 30, "magic.bogus_network_refused": 6, "codec.version.relay_false": 5, "codec.version.height_top_bit": 5, "codec.getheaders": 7, "codec.inv": 6, "codec.addr": 6, "codec.ping": 5}
 
 
 def exhaustive(tier, counts):
@@ -263,6 +263,14 @@ def run_case(kind, params, ctx):
     if kind == "wrong_magic":
         net = params["net"]
         p2p.set_magic_start_bytes(net)
+        # a REFUSED switch (unknown network name) must leave the network in effect untouched
+        for bogus in ("signet", "", "main", "testnet4", "mainnet "):
+            try:
+                p2p.set_magic_start_bytes(bogus)
+                ctx.count("magic.bogus_network_accepted")
+                p2p.set_magic_start_bytes(net)
+            except Exception:
+                ctx.count("magic.bogus_network_refused")
         try:
             for other in rp.MAGIC:
                 frame = rp.frame(rp.MAGIC[other], b"ping", b"\x00" * 8) + rp.frame(rp.MAGIC[net], b"verack", b"")
